@@ -637,4 +637,6 @@ pub fn run(run: &Run) {
     let failing = FAILING.lock().unwrap().clone();
     run.extra("failing_entries_by_signature", json!(failing));
     run.extra("targets", json!(ts.iter().map(|t| t.name).collect::<Vec<_>>()));
+    // thorough: the same quick workload once more under the AddressSanitizer build (memory errors in the library or its dependencies)
+    if !run.quick() { crate::lanes::asan_rerun(run); }
 }
